@@ -48,18 +48,28 @@ var reAddr = regexp.MustCompile(`0x[0-9a-fA-F]+\??|\+0x[0-9a-fA-F]+`)
 
 func maskAddrs(s string) string { return reAddr.ReplaceAllString(s, "0x?") }
 
+// maskAll masks addresses and replaces the goroutine stack dump that
+// Report.CatchICE appends to an internal-compiler-error diagnostic (everything
+// after the "stack trace:" debug line) by a placeholder: which goroutine ran
+// the panicking task, and therefore its frames, is schedule by nature.
 func maskAll(ss []string) []string {
 	if ss == nil {
 		return nil
 	}
-	out := make([]string, len(ss))
-	for i, s := range ss {
-		out[i] = maskAddrs(s)
+	out := make([]string, 0, len(ss))
+	for _, s := range ss {
+		out = append(out, maskAddrs(s))
+		if s == "stack trace:" {
+			out = append(out, "<stack dump omitted>")
+			break
+		}
 	}
 	return out
 }
 
-var plainRenderer = report.Renderer{ShowRemarks: true, ShowDebug: true}
+// plainRenderer renders without the debug footer: debug lines are compared
+// through the Debug() accessor (with stack dumps masked, see maskAll).
+var plainRenderer = report.Renderer{ShowRemarks: true, ShowDebug: false}
 
 func snapDiag(d *report.Diagnostic, render bool) diagSnap {
 	s := diagSnap{
